@@ -307,7 +307,11 @@ class ModelCacheMixin:
     def batch_eval(self, asts, n, extra_constraints=(), exact=None):
         results = self._get_batch_solutions(asts, n=n, extra_constraints=extra_constraints)
 
-        if len(results) == n or (len(asts) == 1 and asts[0].hash() in self._eval_exhausted):
+        # an eval-exhausted expression has all its values in the cache, but only for the stored constraints: the
+        # cached models that happen to satisfy extra constraints need not cover every value possible under them
+        if len(results) == n or (
+            len(extra_constraints) == 0 and len(asts) == 1 and asts[0].hash() in self._eval_exhausted
+        ):
             return results
 
         remaining = n - len(results)
